@@ -153,6 +153,7 @@ def run(ctx):
     # ---------------- parts A/C: histories against the generator machine ----------------
     nh = ctx.budget(120, 700)
     terms, hists, site_hist, not_reachable, dt_hist = [], [], {}, {}, {}
+    reused = 0
     for hno in range(nh):
         h = R.gen_history(ctx.rng, ctx.rng.randint(4, 14), R.SITES)
         seed0 = ctx.rng.randint(0, 2 ** 31)
@@ -164,15 +165,21 @@ def run(ctx):
             if e["e"] == "cola":
                 site_hist[e["site"]] = site_hist.get(e["site"], 0) + 1
                 clean[i] = R.clean_result(e)
+                reused += int(bool(e.get("reuse")))
                 dt_hist[e["dt"]] = dt_hist.get(e["dt"], 0) + 1
                 if clean[i][2] is not None:
                     kx = f"{e['site']}:{e['dt']}:{clean[i][2]}"
                     not_reachable[kx] = not_reachable.get(kx, 0) + 1
-                distinct.add(core.digest([e[k] for k in ("site", "n", "mseed", "key", "k", "max_iters", "tol", "rank", "dt")]))
+                distinct.add(core.digest([e[k] for k in ("site", "n", "mseed", "key", "k", "max_iters", "tol", "rank", "dt", "reuse")]))
         evaluations += len(h)
         bad = R.oracle_history(h, impl, clean, lob)
         terms.append(R.coq_history(h, g0, states, impl, tabs, lob, clean))
         hists.append((h, seed0, impl, bad))
+    calls, rbad = R.reuse_sweep(ctx.rng, lob, reps=ctx.budget(1, 4))
+    evaluations += calls
+    extra.update(algorithm_object_reuse_calls=calls)
+    for b in rbad:
+        mism.append(dict(oracle_fail=True, part="algorithm-object-reuse", **b))
     failing, err = R.eval_in_coq(f"s{ctx.seed}", terms)
     if err:
         mism.append(dict(oracle_fail=False, harness_error=err))
@@ -185,7 +192,7 @@ def run(ctx):
     logging.disable(logging.NOTSET)
     extra.update(histories=nh, events=sum(len(h[0]) for h in hists), site_histogram=site_hist,
                  lobpcg_modelled_as="np.random draw on the global state" if lob else "keyed",
-                 sites_not_reachable_by_dtype=not_reachable, history_dtype_histogram=dt_hist,
+                 sites_not_reachable_by_dtype=not_reachable, history_dtype_histogram=dt_hist, history_events_with_reused_algorithm_object=reused,
                  unkeyed_randn_sites_observed=[f["got"] for f in fnd if f["flag"] == "unkeyed_randn_sites"][0])
     return dict(
         evaluations=evaluations, distinct_nontrivial=len(distinct),
